@@ -261,7 +261,7 @@ def check_pair(case, s0, s1, itp, subsystems):
                 if not ok:
                     stale.append(f"{label}: {txt}")
             if stale:
-                key = "interpolate:stale_rvec_shifts"
+                key = "interpolate:stale_rvec_shifts:endpoint_differs"
                 why = " — the interpolated system carries the new wannier_centers_cart but the old centres in " + " | ".join(stale)
             else:
                 key = f"interpolate:endpoint:{bad['what']}"
@@ -273,8 +273,10 @@ def check_pair(case, s0, s1, itp, subsystems):
         for label, get, e0, e1 in subsystems:
             ok, txt = centre_state(get(results[alpha]))
             if not ok:
-                return {"ok": False, "key": "interpolate:stale_rvec_shifts",
-                        "detail": f"{case} {label} alpha={alpha}: {txt}"}
+                red_ref = ((1 - alpha) * e0.wannier_centers_cart + alpha * e1.wannier_centers_cart) @ np.linalg.inv(e0.real_lattice)
+                return {"ok": False, "key": "interpolate:stale_rvec_shifts:reduced_centres_not_affine",
+                        "detail": f"{case} {label} alpha={alpha}: {txt}; wannier_centers_red={np.round(get(results[alpha]).wannier_centers_red, 4).tolist()} "
+                                  f"expected (1-a)*red0+a*red1={np.round(red_ref, 4).tolist()}"}
     # ---------------- HH_K affine in alpha (no centre phases enter H itself)
     from wbmc import zoo
     for kn in ("gen",):
